@@ -127,7 +127,7 @@ def c11hsm : P String := do
     [if isStateH active q false then 1 else 0, if isStateH active q true then 1 else 0] ++
     encL encName (getTriggersH h q) ++
     encL encName (evNames.filter (firesIn h [] q))
-  pure (joinNats (out ++ encL encName h.knownEvents.eraseDups))
+  pure (joinNats (out ++ encL encName h.knownEvents.eraseDups ++ [if autoCoveredB h sep then 1 else 0]))
 
 /-- `c11trans <states> <tables> <queries (trigger?, src, dst)>` → per query the found transitions
 (scope, event, source, dest) of `getTransitionsH` -/
